@@ -268,14 +268,16 @@ class Composition(Loggable):
 
     def _update_recursive(self, comp, chain=None, target_time=None):
         chain = chain or {}
-        if comp in chain:
+        # a pull-based component is only revisited if asked for the same time again
+        key = comp if isinstance(comp, ITimeComponent) else (comp, target_time)
+        if key in chain:
             with ErrorLogger(self.logger):
                 joined = " >> ".join(
                     [
                         f"({'*' if delayed else ''}{t or '-'}) {c.name}"
                         for c, (t, delayed) in (
-                            (c, lag or (None, False))
-                            for c, lag in reversed(chain.items())
+                            (k if isinstance(k, IComponent) else k[0], lag or (None, False))
+                            for k, lag in reversed(chain.items())
                         )
                     ]
                 )
@@ -288,7 +290,7 @@ class Composition(Loggable):
                     f"or increase the adapter's delay."
                 )
 
-        chain[comp] = None
+        chain[key] = None
 
         if isinstance(comp, ITimeComponent):
             target_time = comp.next_time
@@ -299,7 +301,7 @@ class Composition(Loggable):
             c = self._output_owners[dep]
             if isinstance(c, ITimeComponent):
                 if dep.time < local_time:
-                    chain[comp] = (local_time - dep.time, delayed)
+                    chain[key] = (local_time - dep.time, delayed)
                     return self._update_recursive(c, chain)
             else:
                 updated = self._update_recursive(c, chain, local_time)
@@ -317,7 +319,7 @@ class Composition(Loggable):
 
         # nothing to update upstream of this pull-based component:
         # it is no longer part of the dependency chain
-        del chain[comp]
+        del chain[key]
         return None
 
     def _collect_adapters(self):
